@@ -69,6 +69,28 @@ def c13_own_zone_sender_not_checked(clause, c):
 
 CLASSIFIERS = {f.__name__: f for f in (c13_own_zone_sender_not_checked,)}
 
+# Behaviour-preserving rewrites the check must NOT alarm on.  Each was built as mutated object files in scratch, linked
+# into a scratch harness and run through the full flow of this check (translator on the mutated tree, audit,
+# correspondence, spec, verdict): exit 0, no VIOLATION.  Patches (documentation, not applied by the check):
+# corpus/C13/negative_controls/<name>.diff
+NEGATIVE_CONTROLS = [
+    ("nc1_helper_reorder_spelling", "clusterevents.cpp: CanAccessObject guard of 10 handlers extracted into a static helper; CheckResult guard via a "
+     "named bool; zone-internal guard as if-init + ternary; parameter read moved before the guard; ExecuteCommand sender test with renamed "
+     "locals and De Morgan; zones visited in reverse order in the forwarding loop; SetRemovalInfo guard as flag + nested ifs"),
+    ("nc2_message_texts", "every 'Discarding …'/'Unauthorized access'/'Invalid endpoint origin'/'does not accept commands|config'/'does not exist' "
+     "text reworded in clusterevents.cpp, clusterevents-check.cpp, apilistener-configsync.cpp, jsonrpcconnection-pki.cpp (incl. the output of the "
+     "UNKNOWN reply check result) — the harness never reads log or reply text"),
+    ("nc3_zone_representation_origin", "zone.cpp: IsChildOf answers from the cached m_AllParents vector instead of walking GetParent(), "
+     "CanAccessObject as one expression; jsonrpcconnection.cpp: FromZone computed with a ternary and renamed locals, extra message counter"),
+    ("nc4_registrations_moved_renamed", "REGISTER_APIFUNCTION(Heartbeat…) moved to jsonrpcconnection.cpp (old place under #if 0), SetLogPosition "
+     "registration spread over five lines with odd spacing, comments and a string literal that mention REGISTER_APIFUNCTION(…), "
+     "UpdateObject/DeleteObject registrations swapped with a trailing comment, static pki handlers renamed"),
+    ("nc5_config_cert_guard_spelling", "config::UpdateObject tests accept_config before the zone, config::DeleteObject zone test as positive if/else, "
+     "config::Update and pki::UpdateCertificate guards split into nested ifs / a refuse flag"),
+    ("nc6_execute_from_queue", "clusterevents-check.cpp: source endpoint via ternary, guard as !(a && b) with a named bool, accept_commands test "
+     "with operands swapped"),
+]
+
 
 class C13(Check):
     prop = "C13"
